@@ -22,7 +22,7 @@ def nontrivial(req, obs):
 
 PROP = {
     "id": "C01",
-    "lean_targets": ["WmModel.Props.C01"],
+    "lean_targets": ["WmModel.Props.C01", "WmModel.Props.C01Conf"],
     "audit_module": "Audit.C01",
     "theorems": [
         "Wm.Pipeline.no_loss_inv", "Wm.Pipeline.ack_after_accept", "Wm.Pipeline.publishOk_creates_downstream",
@@ -30,6 +30,9 @@ PROP = {
         "Wm.Pipeline.sink_sound", "Wm.Pipeline.all_runs_finite", "Wm.Pipeline.all_runs_finite_init",
         "Wm.Pipeline.terminal_delivered", "Wm.Pipeline.maximal_run_delivers", "Wm.Pipeline.pipeline_refines",
         "Wm.Pipeline.realEff_facts",
+        # what an accepted trace means (Props/C01Conf.lean): the driver's replay is a terminating run of the model
+        "Wm.Pipeline.candidates_complete", "Wm.Pipeline.enabled_empty_terminal", "Wm.Pipeline.conf_ok_sound",
+        "Wm.Pipeline.conf_ok_delivers",
     ],
     "tie_theorems": [],
     "harness": "c01",
@@ -43,7 +46,7 @@ PROP = {
             "and a publisher wrapper (passed to AddHandler or installed with AddPublisherDecorators), optional foreign subscriber (tap) on the source "
             "topic, seeded yield injection at all router.* / gochannel.* hook points and in the wrappers. Quick: every placement of <= 2 faults "
             "(5 kinds x stage x call 1..3) on chains of <= 2 stages with <= 2 messages (1174 cases) + 200 random longer scripts; thorough adds every "
-            "placement of <= 3 faults on the 3-stage chain (calls 1..2, 4526 cases) and 5000 random. Oracle: the recorded event trace must be a run "
+            "placement of <= 3 faults on the 3-stage chain (calls 1..3, 15226 cases) and 5000 random. Oracle: the recorded event trace must be a run "
             "of the Lean model Pipeline.act ending in a terminal state (M line) and must satisfy the C01 monitor (P line): Ack only after the "
             "output Publish of that invocation returned nil, sink lineages were published at the source, every successfully published lineage "
             "is at the sink at quiescence (liveness bound 30 s), every Nacked copy was followed by a later delivery. Non-trivial = a case with an "
@@ -77,5 +80,6 @@ PROP = {
     "level_note": "The per-stage step semantics are hypotheses (H1-H4) discharged by C02/C04/C05/C11, not re-proved here.",
     "technique": "Lean 4 invariant + termination-measure proof over an LTS obligation model; trace conformance and property monitor on fault-injected executions",
     "explanation": "Good (Lemmas/PipelineInv.lean) is an inductive invariant over the six actions; mu (Lemmas/PipelineMeasure.lean) is a Nat measure "
-                   "that drops on every step, so Lts.steps_bounded_reach bounds every run; the harness replays each recorded trace through Pipeline.act.",
+                   "that drops on every step, so Lts.steps_bounded_reach bounds every run; the harness replays each recorded trace through Pipeline.act; "
+                   "conf_ok_sound/conf_ok_delivers show that an accepted trace is a run of the model ending in a terminal state with every lineage at the sink.",
 }
